@@ -369,7 +369,7 @@ fn make_abbreviated_namespace(namespace: &str, existing_namespaces: &[Rc<Namespa
         namespace.chars().filter(|c| c != &'.').take(3).collect()
     }
 
-    let mut append: Option<u8> = None;
+    let mut append: Option<u32> = None;
 
     let abbreviation = if let Some(last_segment) = namespace.split('/').next_back() {
         if let Some(slashed) = last_segment.split('-').next_back() {
@@ -399,7 +399,6 @@ fn make_abbreviated_namespace(namespace: &str, existing_namespaces: &[Rc<Namespa
             Some(n) => Some(n + 1),
         };
 
-        assert_ne!(append, Some(255), "Too many namespaces with the same abbreviation");
     }
 }
 
